@@ -188,6 +188,15 @@ CLAIMED = {
              "reindex_elements is the recorded known finding. Other edits: bounded stand-in (native edits of one fixed network).",
         note="Assumed: pandas drop / set_index / .loc stores, get_indices = map through the lookup. Not decided deductively: fuse_buses, "
              "select_subnet, merge_nets, reindex_buses, replace_*, controller and characteristic references, group links in reindex."),
+    "C26": dict(
+        text="Proof for the generic row of the line, impedance, trafo, trafo3w (three side pairs) and switch tables, for respect_switches "
+             "in {True, False} and include_out_of_service in {False, True} (real create_nxgraph with init_par / get_edge_table): the "
+             "rows handed to add_edges are exactly the in-service elements (or all, if out-of-service ones are included) that no open "
+             "switch of the element's code interrupts (trafo3w: at one of the edge's two buses), with the table's bus columns as end "
+             "points and the element index as key; lines carry their length; bus-bus switches give an edge iff closed (or switches "
+             "are not respected); calc_distance_to_bus searches a multigraph built with the caller's options.",
+        note="Assumed: add_edges adds one edge per in-service row; networkx (MultiGraph, Dijkstra). Not decided: connected_components, "
+             "nogobuses / notravbuses, edge impedances, tcsc / dcline / vsc / line_dc edges, graph_tool back end."),
 }
 
 NOT_APPLICABLE = {
